@@ -285,6 +285,13 @@ class StmtMixin:
         self.exec_block(s.finalbody, st)
 
     # ------------------------------------------------------------ loops
+    @staticmethod
+    def _root(e):
+        """x[a][b].m / x.f[a] ... -> the variable or attribute whose container is mutated"""
+        while isinstance(e, ast.Subscript):
+            e = e.value
+        return e
+
     def loop_writes(self, body, st):
         """names, tracked fields and ghost names a loop body may write (syntactic, plus callee frames)"""
         locs, flds, ghosts = set(), set(), set()
@@ -297,24 +304,27 @@ class StmtMixin:
                     if par_store:
                         flds.add(x.attr)
                 if isinstance(x, (ast.Subscript,)) and isinstance(x.ctx, (ast.Store, ast.Del)):
-                    b = x.value
+                    b = self._root(x.value)
                     if isinstance(b, ast.Attribute) and b.attr in self.m.fields:
                         flds.add(b.attr)
                     if isinstance(b, ast.Name):
                         locs.add(b.id)
                 if isinstance(x, ast.AugAssign):
                     t = x.target
-                    if isinstance(t, ast.Subscript) and isinstance(t.value, ast.Attribute) and t.value.attr in self.m.fields:
-                        flds.add(t.value.attr)
+                    if isinstance(t, ast.Subscript) and isinstance(self._root(t.value), ast.Attribute) and self._root(t.value).attr in self.m.fields:
+                        flds.add(self._root(t.value).attr)
+                    if isinstance(t, ast.Subscript) and isinstance(self._root(t.value), ast.Name):
+                        locs.add(self._root(t.value).id)
                     if isinstance(t, ast.Attribute) and t.attr in self.m.fields:
                         flds.add(t.attr)
                 if isinstance(x, ast.Call):
                     f = x.func
                     if isinstance(f, ast.Attribute) and f.attr in MUTATORS:
-                        if isinstance(f.value, ast.Attribute) and f.value.attr in self.m.fields:
-                            flds.add(f.value.attr)
-                        if isinstance(f.value, ast.Name):
-                            locs.add(f.value.id)
+                        r_ = self._root(f.value)
+                        if isinstance(r_, ast.Attribute) and r_.attr in self.m.fields:
+                            flds.add(r_.attr)
+                        if isinstance(r_, ast.Name):
+                            locs.add(r_.id)
                     q = self.resolve(f, st)
                     if q:
                         for fld in self.m.contracts[q].get("modifies", []):
@@ -472,7 +482,7 @@ class StmtMixin:
         self.exec_block(s.orelse, st)
 
     def loop_domain(self, v, s, st):
-        if "iter" in self.m.hooks and isinstance(v, T):
+        if "iter" in self.m.hooks and hasattr(v, "sort"):
             v = self.m.hooks["iter"](self, v, st) or v
         if isinstance(v, tuple) and v and v[0] == "mapview":
             return MapDomain(self, v[2], v[1])
